@@ -145,3 +145,21 @@ Inductive c05_step (add fwd : bool) (cm : c05_comm) (msgs : nat -> option (list 
 Inductive c05_steps (add fwd : bool) (cm : c05_comm) (msgs : nat -> option (list N)) : c05_rstate -> c05_rstate -> Prop :=
 | C05_steps_refl : forall st, c05_steps add fwd cm msgs st st
 | C05_steps_cons : forall a b c, c05_step add fwd cm msgs a b -> c05_steps add fwd cm msgs b c -> c05_steps add fwd cm msgs a c.
+
+(* ------------------------------------------------------------------ DatatypeCommunicator: the unbuffered machine, all interleavings
+   sT p q / rT q p = the datatype p sends to q with / q receives from p with.  A transfer (p,q) is atomic: it reads the cells of
+   sT p q from p's send container AS IT IS AT THAT MOMENT and stores them into the cells of rT q p of q's receive container.
+   same = true : every rank sends from and receives into ONE container (state R); same = false : it sends from G, which is never
+   written.  A schedule is any list of transfers. *)
+Definition c05_dt_step (same : bool) (sT rT : nat -> nat -> c05_dtype) (G : nat -> c05_data) (R : nat -> c05_data) (pq : nat * nat)
+  : nat -> c05_data :=
+  fun r => if r =? snd pq
+           then c05_dt_unpack (R r) (rT (snd pq) (fst pq)) (c05_dt_pack (if same then R (fst pq) else G (fst pq)) (sT (fst pq) (snd pq)))
+           else R r.
+Definition c05_dt_run (same : bool) (sT rT : nat -> nat -> c05_dtype) (G : nat -> c05_data) (sched : list (nat * nat)) (R : nat -> c05_data)
+  : nat -> c05_data := fold_left (c05_dt_step same sT rT G) sched R.
+(* the senders of the transfers to rank r, in schedule order *)
+Definition c05_dt_senders (sched : list (nat * nat)) (r : nat) : list nat := map fst (filter (fun pq => snd pq =? r) sched).
+(* the MPI precondition: on every rank, no cell is both sent from and received into (only matters for one container) *)
+Definition c05_dt_nonoverlap (sT rT : nat -> nat -> c05_dtype) : Prop :=
+  forall r q p c, In c (c05_typemap (sT r q)) -> ~ In c (c05_typemap (rT r p)).
